@@ -1,10 +1,50 @@
 use crate::common::Opts;
 
+pub mod c01;
+pub mod c02;
+pub mod c03;
+pub mod c04;
+pub mod c05;
+pub mod c06;
+pub mod c07;
 pub mod c08;
+pub mod c09;
+pub mod c10;
+pub mod c11;
+pub mod c12;
+pub mod c13;
+pub mod c14;
+pub mod c15;
+pub mod c16;
+pub mod c17;
+pub mod c18;
+pub mod c19;
+pub mod c20;
 
+/// engine names: "cNN" or "cNN<suffix>" (an engine file may serve several sub-engines through
+/// `opts.engine`)
 pub fn run(engine: &str, opts: &Opts) -> bool {
-	match engine {
+	match &engine[..engine.len().min(3)] {
+		"c01" => c01::run(opts),
+		"c02" => c02::run(opts),
+		"c03" => c03::run(opts),
+		"c04" => c04::run(opts),
+		"c05" => c05::run(opts),
+		"c06" => c06::run(opts),
+		"c07" => c07::run(opts),
 		"c08" => c08::run(opts),
+		"c09" => c09::run(opts),
+		"c10" => c10::run(opts),
+		"c11" => c11::run(opts),
+		"c12" => c12::run(opts),
+		"c13" => c13::run(opts),
+		"c14" => c14::run(opts),
+		"c15" => c15::run(opts),
+		"c16" => c16::run(opts),
+		"c17" => c17::run(opts),
+		"c18" => c18::run(opts),
+		"c19" => c19::run(opts),
+		"c20" => c20::run(opts),
 		_ => return false,
 	}
 	true
